@@ -40,6 +40,16 @@ func genSync(o *hx.Out, r *hx.Rng, n int) {
 		// failed block sync leaves temp blocks behind; own blocks on top; then a fast sync with an invalid block
 		{N: 4, Prefix: 4, Own: 3, Peer: 12, HCB: "honest", Corrupt: -1, ErrAfter: 6, Second: true, Own2: 2, HCB2: "honest", Corrupt2: 1, CorruptKind2: "sig", ErrAfter2: -1},
 		{N: 4, Prefix: 4, Own: 3, Peer: 12, HCB: "honest", Corrupt: -1, ErrAfter: 6, Second: true, Own2: 0, HCB2: "honest", Corrupt2: 2, CorruptKind2: "sig", ErrAfter2: -1},
+		// three nodes: the sender C (shares 4 of our own blocks, then 14 of its own) is not the best peer B
+		{N: 4, Prefix: 3, Own: 5, Peer: 26, HCB: "honest", Corrupt: -1, ErrAfter: -1, Sender: true, SenderShare: 4, SenderOwn: 14},
+		{N: 4, Prefix: 6, Own: 9, Peer: 30, HCB: "honest", Corrupt: -1, ErrAfter: -1, Sender: true, SenderShare: 9, SenderOwn: 12},
+		// better (larger maxHeightPrevoted) but SHORTER peer chain, our finalized block recent
+		{N: 4, Prefix: 12, Own: 4, Peer: 3, Full: true, ForkMode: "peerfull", Recent: true, HCB: "honest", Corrupt: -1, ErrAfter: -1},
+		{N: 4, Prefix: 13, Own: 3, Peer: 2, Full: true, ForkMode: "peerfull", Recent: true, HCB: "honest", Corrupt: -1, ErrAfter: -1},
+		{N: 4, Prefix: 16, Own: 4, Peer: 3, Full: true, ForkMode: "peerfull", Recent: true, HCB: "honest", Corrupt: -1, ErrAfter: -1},
+		{N: 4, Prefix: 12, Own: 4, Peer: 3, Full: true, ForkMode: "peerfull", HCB: "honest", Corrupt: -1, ErrAfter: -1},
+		// recent finality, far apart: nothing is done (neither mechanism applies)
+		{N: 4, Prefix: 12, Own: 0, Peer: 10, Full: true, Recent: true, HCB: "honest", Corrupt: -1, ErrAfter: -1},
 		// failed block sync, then an honest fast sync
 		{N: 4, Prefix: 4, Own: 3, Peer: 12, HCB: "honest", Corrupt: -1, ErrAfter: 6, Second: true, Own2: 1, HCB2: "honest", Corrupt2: -1, ErrAfter2: -1},
 	}
@@ -80,7 +90,17 @@ func genSync(o *hx.Out, r *hx.Rng, n int) {
 			s.ErrAfter = r.Intn(s.Peer + 1)
 			s.Stall = []string{"", "", "empty", "repeat"}[r.Intn(4)]
 		}
-		if r.Intn(5) == 0 { // a second sync with the same peer afterwards
+		if r.Intn(8) == 0 { // three nodes, block sync: the sender shares more of our fork than the best peer
+			s.Full, s.Own = false, 2+r.Intn(8)
+			s.Sender, s.SenderShare = true, 1+r.Intn(s.Own)
+			s.SenderOwn = s.Own - s.SenderShare + 2*s.N + 1 + r.Intn(6) // the sender's tip is more than two rounds above ours: block sync
+			s.Peer = s.Own + s.SenderOwn + 2 + r.Intn(6)
+		} else if r.Intn(10) == 0 { // better but shorter, with and without a recent finalized block
+			s = gsx.SyncSpec{N: 4, Prefix: 10 + r.Intn(8), Full: true, ForkMode: "peerfull", Recent: r.Intn(2) == 0, HCB: "honest", Corrupt: -1, ErrAfter: -1, CorruptKind: "sig"}
+			s.Own = 3 + r.Intn(3)
+			s.Peer = s.Own - 1 - r.Intn(2)
+		}
+		if r.Intn(5) == 0 && !s.Sender && s.ForkMode == "" { // a second sync with the same peer afterwards
 			s.Second, s.HCB2, s.Corrupt2, s.ErrAfter2, s.CorruptKind2 = true, "honest", -1, -1, "sig"
 			s.Own2 = r.Intn(3)
 			switch r.Intn(3) {
